@@ -7,7 +7,6 @@ use crate::calls::{hexs, Call, Cfg};
 use crate::campaign::{CaseReport, Engine, Tier};
 use crate::engine::Failure;
 use crate::gen::{self, data_bytes, hist_strategy, idx, HistSeed};
-use crate::graph::new_graph;
 use crate::interp::{panic_text, Ret, Runner};
 use crate::lab::{pool, Lab};
 use crate::obs::{diff, try_observe, ObsLevel};
@@ -233,10 +232,20 @@ pub enum Direct {
 
 /// Execute commands as direct API calls, each variable bound to one next_id() at its
 /// first textual use (arguments left to right).
-pub fn exec_direct(cfg: Cfg, cmds: &[Cmd]) -> Direct {
+pub fn exec_direct(cfg: Cfg, prefix: &[Call], cmds: &[Cmd]) -> Direct {
     let mut r = Runner::new(cfg);
     let mut vars: BTreeMap<String, usize> = BTreeMap::new();
     let mut calls = vec![];
+    for c in prefix {
+        if !r.valid(c) {
+            return Direct::OutOfDomain("prefix call invalid".into());
+        }
+        let s = r.step(c);
+        calls.push(c.clone());
+        if s.panicked.is_some() || s.desync {
+            return Direct::OutOfDomain("prefix closed".into());
+        }
+    }
     macro_rules! doit {
         ($c:expr) => {{
             let c: Call = $c;
@@ -303,14 +312,43 @@ pub struct ScriptCase {
 #[derive(Debug, Clone, PartialEq, Eq, Serialize, Deserialize)]
 pub struct ScriptConcrete {
     pub cfg: Cfg,
+    /// direct calls made on both graphs before the script / its equivalent calls
+    #[serde(default)]
+    pub prefix: Vec<Call>,
     pub text: String,
     pub order_sel: u16,
 }
 
 pub struct ScriptEngine;
 
-fn gen_program(hs: &HistSeed, cfg: Cfg) -> Vec<Cmd> {
+/// A short generated pre-history (a third of the cases): the script then runs on a graph
+/// that has lived — collected groups, dangling edges, recycled ids, an advanced allocator.
+fn gen_prefix(hs: &HistSeed, cfg: Cfg) -> Vec<Call> {
+    if hs.profile_sel % 3 != 0 {
+        return vec![];
+    }
     let mut r = Runner::new(cfg);
+    let mut calls = vec![];
+    for seed in hs.ops.iter().rev().take(30) {
+        if let Some(c) = gen::resolve(seed, &r.m, gen::Profile::GcOrders) {
+            if !matches!(c, Call::Add(_) | Call::Bind { .. } | Call::Put(..) | Call::Data(_) | Call::NextId | Call::NextIdAdd) || !r.valid(&c) {
+                continue;
+            }
+            let s = r.step(&c);
+            calls.push(c);
+            if s.panicked.is_some() || s.desync {
+                return vec![];
+            }
+        }
+    }
+    calls
+}
+
+fn gen_program(hs: &HistSeed, cfg: Cfg, prefix: &[Call]) -> Vec<Cmd> {
+    let mut r = Runner::new(cfg);
+    for c in prefix {
+        r.step(c);
+    }
     let mut id_var: BTreeMap<usize, String> = BTreeMap::new();
     let mut cmds = vec![];
     let labels: Vec<Lab> = pool().into_iter().filter(|l| !matches!(l, Lab::Alpha(i) if *i > 9_999_999) && l.text().chars().count() <= 8 && l.parse_roundtrips() && !l.text().chars().any(char::is_whitespace)).collect();
@@ -339,10 +377,15 @@ fn gen_program(hs: &HistSeed, cfg: Cfg) -> Vec<Cmd> {
                         if r.valid(&Call::Add(id)) {
                             r.step(&Call::Add(id));
                             nvars += 1;
-                            let name = match b % 3 {
+                            let name = match b % 7 {
                                 0 => format!("ν{nvars}"),
                                 1 => format!("v{nvars}"),
-                                _ => format!("x_{nvars}"),
+                                2 => format!("x_{nvars}"),
+                                // long names that share their first 8, 12 or 16 characters
+                                3 => format!("customer_{nvars}"),
+                                4 => format!("temporary_variable_{nvars}"),
+                                5 => format!("abcdefgh{}", "i".repeat(nvars as usize)),
+                                _ => format!("νννννννννννννννν{nvars}"),
                             };
                             id_var.insert(id, name.clone());
                             cmds.push(Cmd::Add(Arg::Var(name)));
@@ -352,6 +395,24 @@ fn gen_program(hs: &HistSeed, cfg: Cfg) -> Vec<Cmd> {
             }
             4..=6 => {
                 if pres.len() >= 2 {
+                    // in a graph with history: bind an existing edge again (same source, label and
+                    // target — possibly re-added after its group was collected)
+                    if d & 12 == 12 {
+                        let cands: Vec<(usize, Lab, usize)> = pres
+                            .iter()
+                            .flat_map(|v| r.m.get(*v).edges.iter().map(move |(l, t)| (*v, l.clone(), *t)))
+                            .filter(|(v, l, t)| v != t && r.m.present(*t) && l.parse_roundtrips() && !l.text().chars().any(char::is_whitespace) && l.text().chars().count() <= 8 && !matches!(l, Lab::Alpha(i) if *i > 9_999_999))
+                            .collect();
+                        if !cands.is_empty() {
+                            let (x, l, y) = cands[idx(*c, cands.len())].clone();
+                            let call = Call::Bind { a: x, b: y, l: l.clone(), parsed: false };
+                            if r.valid(&call) {
+                                r.step(&call);
+                                cmds.push(Cmd::Bind(arg_of(x, d & 1 == 1, &id_var), arg_of(y, d & 2 == 2, &id_var), l));
+                                continue;
+                            }
+                        }
+                    }
                     let x = pres[idx(*a, pres.len())];
                     let rest: Vec<usize> = pres.iter().copied().filter(|i| *i != x).collect();
                     let y = rest[idx(*b, rest.len())];
@@ -582,13 +643,13 @@ impl ScriptEngine {
     }
 
     /// Judge one text. Returns (failure, class, closed reason, groups died)
-    fn judge(cfg: Cfg, text: &str, order_sel: u16) -> (Option<Failure>, &'static str) {
+    fn judge(cfg: Cfg, prefix: &[Call], text: &str, order_sel: u16) -> (Option<Failure>, &'static str) {
         match strict_parse(text) {
             Parsed::Unspecified(_) => (None, "class.unspecified_skipped"),
-            Parsed::WellFormed(cmds) => match exec_direct(cfg, &cmds) {
+            Parsed::WellFormed(cmds) => match exec_direct(cfg, prefix, &cmds) {
                 Direct::OutOfDomain(_) => (None, "class.wellformed_out_of_domain_skipped"),
                 Direct::Done(_, calls) => {
-                    let e = TwinEngine { kind: TwinKind::Script { text: text.to_string(), commands: cmds.len() } };
+                    let e = TwinEngine { kind: TwinKind::Script { text: text.to_string(), commands: cmds.len(), prefix: prefix.to_vec() } };
                     let (f, closed, _) = e.execute_public(cfg, &calls, order_sel, &[]);
                     if closed.is_some() {
                         return (None, "class.closed");
@@ -603,7 +664,7 @@ impl ScriptEngine {
                     )
                 }
             },
-            Parsed::MalformedAt(k, prefix, why, dollars) => match exec_direct(cfg, &prefix) {
+            Parsed::MalformedAt(k, good, why, dollars) => match exec_direct(cfg, prefix, &good) {
                 Direct::OutOfDomain(_) => (None, "class.malformed_prefix_out_of_domain_skipped"),
                 // the arguments of the malformed command are evaluated left to right, so a
                 // $variable in it may ask the allocator for an id before the fault is met: with
@@ -613,7 +674,11 @@ impl ScriptEngine {
                     (None, "class.malformed_but_allocator_exhausted_skipped")
                 }
                 Direct::Done(rb, _) => {
-                    let mut g = new_graph(cfg.n, cfg.cap);
+                    let mut pre = Runner::new(cfg);
+                    for c in prefix {
+                        pre.step(c);
+                    }
+                    let mut g = pre.g;
                     let res = catch_unwind(AssertUnwindSafe(|| g.deploy(text)));
                     match res {
                         Err(p) => (Some(Self::fail("script.panic_on_malformed", k, format!("command {k} is malformed ({why}); deploy_to() panicked: {}", panic_text(p)))), "class.malformed"),
@@ -651,9 +716,13 @@ impl Engine for ScriptEngine {
     }
     fn run(&self, case: &ScriptCase) -> CaseReport {
         let cfg = gen::cfg_of(&case.hist);
-        let cmds = gen_program(&case.hist, cfg);
+        let prefix = gen_prefix(&case.hist, cfg);
+        let cmds = gen_program(&case.hist, cfg, &prefix);
         let mut text = render_program(&cmds, &case.fmt);
         let mut events: Vec<&'static str> = vec![];
+        if !prefix.is_empty() {
+            events.push("deployed_onto_a_graph_with_history");
+        }
         // the rendering itself must be well-formed by the strict parser and mean the program
         let reparsed = strict_parse(&text);
         if reparsed != Parsed::WellFormed(cmds.clone()) {
@@ -664,7 +733,7 @@ impl Engine for ScriptEngine {
             text = t;
             events.push(name);
         }
-        let (failure, class) = Self::judge(cfg, &text, case.hist.order_sel);
+        let (failure, class) = Self::judge(cfg, &prefix, &text, case.hist.order_sel);
         events.push(class);
         let vars_twice = {
             let mut count: BTreeMap<&String, usize> = BTreeMap::new();
@@ -689,7 +758,7 @@ impl Engine for ScriptEngine {
         let mut h = std::collections::hash_map::DefaultHasher::new();
         (cfg, &text).hash(&mut h);
         CaseReport {
-            payload: failure.as_ref().map(|_| serde_json::to_value(ScriptConcrete { cfg, text: text.clone(), order_sel: case.hist.order_sel }).unwrap()),
+            payload: failure.as_ref().map(|_| serde_json::to_value(ScriptConcrete { cfg, prefix: prefix.clone(), text: text.clone(), order_sel: case.hist.order_sel }).unwrap()),
             failure,
             nontrivial,
             hash: h.finish(),
@@ -701,7 +770,8 @@ impl Engine for ScriptEngine {
     }
     fn render(&self, case: &ScriptCase) -> Value {
         let cfg = gen::cfg_of(&case.hist);
-        let cmds = gen_program(&case.hist, cfg);
+        let prefix = gen_prefix(&case.hist, cfg);
+        let cmds = gen_program(&case.hist, cfg, &prefix);
         let mut text = render_program(&cmds, &case.fmt);
         let mut fault = "none";
         if let Some(c) = case.corrupt {
@@ -709,7 +779,7 @@ impl Engine for ScriptEngine {
             text = t;
             fault = name;
         }
-        json!({"config": cfg, "script": text, "fault": fault, "classified": format!("{:?}", match strict_parse(&text) {
+        json!({"config": cfg, "calls_before_the_script": crate::calls::render_calls(cfg, &prefix), "script": text, "fault": fault, "classified": format!("{:?}", match strict_parse(&text) {
             Parsed::WellFormed(c) => format!("well-formed, {} commands", c.len()),
             Parsed::MalformedAt(k, _, why, _) => format!("malformed at command {k}: {why}"),
             Parsed::Unspecified(w) => format!("unspecified: {w}"),
@@ -722,16 +792,16 @@ impl Engine for ScriptEngine {
         // delta-debug over the ';'-separated pieces of the text
         let pieces: Vec<String> = c.text.split(';').map(ToString::to_string).collect();
         let mut budget = 400u64;
-        let mut pred = |p: &[String]| Self::judge(c.cfg, &p.join(";"), c.order_sel).0.is_some_and(|f| f.kind == kind);
+        let mut pred = |p: &[String]| Self::judge(c.cfg, &c.prefix, &p.join(";"), c.order_sel).0.is_some_and(|f| f.kind == kind);
         if !pred(&pieces) {
             return payload;
         }
         let min = crate::campaign::ddmin(pieces, &mut pred, &mut budget);
-        serde_json::to_value(ScriptConcrete { text: min.join(";"), ..c }).unwrap()
+        serde_json::to_value(ScriptConcrete { text: min.join(";"), ..c.clone() }).unwrap()
     }
     fn replay(&self, payload: &Value) -> Option<Failure> {
         let c: ScriptConcrete = serde_json::from_value(payload.clone()).ok()?;
-        Self::judge(c.cfg, &c.text, c.order_sel).0
+        Self::judge(c.cfg, &c.prefix, &c.text, c.order_sel).0
     }
 }
 
